@@ -221,6 +221,22 @@ def one_configuration(ctx, env, config, part, parts, label=None, products=None):
         # alternative spellings of the same product
         if i % 2 == 0:
             spellings(ctx, env, rng, factors, u, same_unit, ParseError)
+    # ---- the spellings people type for everyday rates and ratios: every pair of an everyday prefix (or none) on an
+    # everyday unit over / times another one, exponents +-1 (kb/B, km/h, kWh, MiB/s, mg/kg ...), in all spellings
+    everyday = [n for n in ("bit", "byte", "meter", "second", "hour", "gram", "liter", "watt", "hertz", "foot", "joule", "newton") if n in pools.units]
+    eprefixes = [None, "kilo", "mega", "milli", "kibi", "mebi", "centi", "giga"]
+    eprefixes = [x for x in eprefixes if x is None or x in pools.prefixes]
+    pairs_all = [(p1, u1, p2, u2, e2) for u1 in everyday for u2 in everyday for p1 in eprefixes for p2 in eprefixes for e2 in (-1, 1) if u1 != u2 or p1 != p2]
+    rng.shuffle(pairs_all)
+    mine = [x for i, x in enumerate(pairs_all) if i % parts == part]
+    for p1, u1, p2, u2, e2 in mine[: (1500 if ctx.tier == "quick" else 100000)]:
+        factors = [(p1, u1, 1), (p2, u2, e2)]
+        try:
+            u = mdl.eval_real(pools.factors_term(factors))
+        except Exception:
+            continue
+        ctx.count("everyday_ratio_spellings")
+        spellings(ctx, env, rng, factors, u, same_unit, ParseError)
     for e in ctx.known:
         if e.get("status") == "known":
             ctx.witness(e["key"], ctx.known_hits.get(e["key"], 0) > 0)
